@@ -593,16 +593,13 @@ def do_lineprefix(s, prefix):
      .. versionadded:: 2.11
         Add block auto-indent feature
     """
-    newline = u'\n'
+    markup = isinstance(s, Markup)
+    s = soft_unicode(s)
 
-    if isinstance(s, Markup):
-        prefix = Markup(prefix)
-        newline = Markup(newline)
+    # A line ends at LF or CRLF. All terminators are kept as they are; only non-empty lines get the prefix.
+    rv = re.sub(r'(?:\A|(?<=\n))(?!\r?\n)(?=.)', lambda m: prefix, s, flags=re.S)
 
-    lines = s.splitlines()
-    rv = newline.join(prefix + line if line else line for line in lines)
-
-    return rv
+    return Markup(rv) if markup else rv
 
 @environmentfilter
 def do_truncate(env, s, length=255, killwords=False, end='...', leeway=None):
